@@ -57,7 +57,8 @@ ParCheck(ev) ==
         LET o == ev.obs[i]
             p == ev.sig[o.p]
             c == CallOf(ev, o.p)
-            expectConv == ev.parse /\ p.an = "T" /\ ~p.dep /\ o.convertible /\ c.vc # "none"
+            (* also for an annotated dependency parameter that the caller chose to bind explicitly *)
+            expectConv == ev.parse /\ p.an = "T" /\ o.convertible /\ c.vc # "none"
         IN (IF ~o.bound THEN {"C08_Unbound"} ELSE {})
            \cup (IF o.bound /\ expectConv /\ ~o.eq_conv THEN {"C08_NotConverted"} ELSE {})
            \cup (IF o.bound /\ ~expectConv /\ ~o.eq_sent THEN {"C08_Changed"} ELSE {})
